@@ -153,6 +153,29 @@ def build_traces(path, tier, seed):
                 out_o = np.array(o_.smooth_fa_spectrum)
             add({"kind": "smooth", "freqs": enc_seq(o_.fa_freqs), "amps": enc_seq(np.abs(o_.fa_spectrum)), "targets": enc_seq(tg_f), "band": enc(band), "out": enc_seq(out_o)},
                 {"kind": "smooth", "fn": "Signal.smooth_fa_spectrum(whole-number targets)", "band": band, "targets": repr(tg)[:80]})
+    # object histories: the generator is called again with OTHER target frequencies of the same count (and, or, another bandwidth,
+    # another record) -- what is reported is the smoothing at the frequencies and bandwidth of the LAST call
+    for j in range(5 if tier == "quick" else 30):
+        n = int(rng.integers(40, 260))
+        dt = [0.01, 0.005, 0.02][j % 3]
+        o = eqsig.AccSignal(rng.standard_normal(n), dt)
+        band = float([40, 20, 100, 5, 75][j % 5])
+        nt = [50, 8, 12, 50, 20][j % 5]                       # 50 = the count of the default frequencies
+        ff = np.array(o.fa_freqs)
+        targets = np.sort(rng.uniform(ff[1], ff[-1], size=nt))
+        other = np.sort(rng.uniform(ff[1], ff[-1], size=nt))
+        with warnings.catch_warnings():
+            warnings.simplefilter("ignore")
+            if j % 2:
+                _ = np.array(o.smooth_fa_spectrum)           # the default frequencies and bandwidth first
+            o.gen_smooth_fa_spectrum(smooth_fa_freqs=other, band=band if j % 3 else 40.0)
+            _ = np.array(o.smooth_fa_spectrum)
+            if j % 4 == 3:
+                o.add_constant(0.1)                          # the record changes, the frequency axes do not
+            o.gen_smooth_fa_spectrum(smooth_fa_freqs=targets, band=band)
+            out = np.array(o.smooth_fa_spectrum)
+        add({"kind": "smooth", "freqs": enc_seq(o.fa_freqs), "amps": enc_seq(np.abs(o.fa_spectrum)), "targets": enc_seq(targets), "band": enc(band), "out": enc_seq(out)},
+            {"kind": "smooth", "fn": "Signal.gen_smooth_fa_spectrum(smooth_fa_freqs=..) after the same call with other frequencies of the same count", "n": n, "band": band, "targets": nt})
     nrec = 24 if tier == "quick" else 150
     for i in range(nrec):
         n = int([64, 100, 256, 300, 1000, 2048][i % 6]) if tier == "thorough" else int([50, 64, 100, 200, 256, 130][i % 6])
@@ -197,6 +220,11 @@ def build_traces(path, tier, seed):
                     targets = np.array(o.smooth_fa_freqs)
                 else:
                     _ = o.smooth_fa_spectrum
+                    if rng.integers(4):
+                        # history: the same call was made before with OTHER target frequencies (same count, same bandwidth) and read
+                        other = np.sort(np.asarray(targets, dtype=float) * rng.uniform(0.6, 1.6, size=len(targets)))
+                        o.gen_smooth_fa_spectrum(smooth_fa_freqs=other, band=band)
+                        _ = np.array(o.smooth_fa_spectrum)
                     o.gen_smooth_fa_spectrum(smooth_fa_freqs=targets, band=band)
                 if setter != 3:
                     band = 40.0
